@@ -2,6 +2,7 @@ package main
 
 import (
 	"fmt"
+	"strings"
 
 	"github.com/weedbox/pokerface"
 )
@@ -80,7 +81,15 @@ func genCfg(r *Rng) *handCfg {
 			c.bank[i] = c.bank[0]
 		}
 	}
-	if n == 2 {
+	if r.Chance(0.04) {
+		// odd layouts: any subset of positions per seat, at least one dealer
+		for i := range c.pos {
+			c.pos[i] = []string{"", "", "", "d", "s", "b", "ds", "sb", "db", "dsb"}[r.Intn(10)]
+		}
+		if !strings.Contains(strings.Join(c.pos, ""), "d") {
+			c.pos[d] = "d" + c.pos[d]
+		}
+	} else if n == 2 {
 		c.pos[d] = "ds"
 		c.pos[1-d] = "b"
 	} else {
@@ -135,8 +144,11 @@ func chooseAction(r *Rng, gs *pokerface.GameState, aggressive bool) opSpec {
 		if op.x <= 0 || r.Chance(0.03) {
 			op.x = amountsMalformed[r.Intn(len(amountsMalformed))]
 		}
+		if r.Chance(0.04) {
+			op.x = p.StackSize + int64(1+r.Intn(1000))
+		}
 	case "raise":
-		cands := []int64{cw + prev, cw + prev, cw + prev + 1, cw + prev + int64(r.Intn(20)), cw + 2*prev, cw + prev + 2}
+		cands := []int64{cw + prev, cw + prev, cw + prev + 1, cw + prev + int64(r.Intn(20)), cw + 2*prev, cw + prev + 2, 2 * cw, 2*cw + 1}
 		if aggressive || r.Chance(0.15) {
 			cands = []int64{cw + prev - 1, cw + 1, cw, p.InitialStackSize - 1, p.InitialStackSize, p.InitialStackSize + 1, (cw + p.InitialStackSize) / 2}
 		}
@@ -197,9 +209,22 @@ func probeAll(h *hand) {
 			if i == gs.Status.CurrentPlayer && ev == "RoundStarted" && has(gs.Players[i].AllowedActions, a) {
 				continue
 			}
-			h.exec(opSpec{kind: "act", seat: i, act: a, x: gs.Status.CurrentWager + gs.Status.PreviousRaiseSize + 1})
-			if h.dead {
-				return
+			xs := []int64{gs.Status.CurrentWager + gs.Status.PreviousRaiseSize + 1}
+			if a == "bet" || a == "raise" || a == "pay" {
+				xs = append(xs, gs.Status.CurrentWager, 1, gs.Players[i].InitialStackSize)
+			}
+			for _, x := range xs {
+				h.exec(opSpec{kind: "act", seat: i, act: a, x: x})
+				if h.dead {
+					return
+				}
+				// the game's own method (acts for the player to act) as well
+				if i == gs.Status.CurrentPlayer {
+					h.exec(opSpec{kind: "act", seat: -1, act: a, x: x})
+					if h.dead {
+						return
+					}
+				}
 			}
 		}
 	}
@@ -322,6 +347,10 @@ var corpusEngine = [][]string{
 	// D3: Pass() when not offered
 	{"cfg ante=0 bd=0 sb=5 bb=10 limit=no hole=2 req=0 table=std deck=S2,S3,S4,S5,S6,S7,S8,S9,ST,SJ,SQ,SK,SA,H2,H3,H4,H5,H6,H7,H8 seats=100:d,100:s,100:b",
 		"op act - pass 0", "op ready", "op act 1 pass 0"},
+	// D11: Bet(x) above the stack records x as the minimum raise
+	{"cfg ante=0 bd=0 sb=5 bb=10 limit=no hole=2 req=0 table=std deck=S2,S3,S4,S5,S6,S7,S8,S9,ST,SJ,SQ,SK,SA,H2,H3,H4,H5,H6,H7,H8 seats=3000000:d,1000:s,5000:b",
+		"op ready", "op blinds", "op ready", "op act - call 0", "op act - call 0", "op act - check 0", "op next", "op ready",
+		"op act - bet 1000000", "op act - call 0", "op act - raise 1980"},
 	// D6: blinds (0,0,10) skipped
 	{"cfg ante=0 bd=0 sb=0 bb=10 limit=no hole=2 req=0 table=std deck=S2,S3,S4,S5,S6,S7,S8,S9,ST,SJ,SQ,SK,SA,H2,H3,H4,H5,H6,H7,H8 seats=100:d,100:s,100:b",
 		"op ready", "op blinds", "op ready"},
